@@ -432,6 +432,19 @@ class Explorer:
 # execution of one case on a fresh network
 # ---------------------------------------------------------------------------
 
+class _VList(list):
+    """a node's `virtQubits` list that reports append / remove to the Exec (which operation mutates the list, from
+    which function, and who holds that node's lock at that moment); behaves like the list it replaces"""
+
+    def append(self, x):
+        self._ex.on_mut(self._node)
+        list.append(self, x)
+
+    def remove(self, x):
+        self._ex.on_mut(self._node)
+        list.remove(self, x)
+
+
 class Exec:
     def __init__(self, case):
         global _CUR
@@ -457,7 +470,12 @@ class Exec:
         self.coin_default, self.coin_by = coin.get("default", 0), coin.get("by", {})
         net.set_coins(self._coin)
         net.set_backoff(list(case.get("backoff", BACKOFF_DISTINCT)))
-        # lock monitor
+        # monitors: node locks; mutations of the per-node handle lists
+        self.unguarded = []                            # [node, call site, op, owner of the node lock at that moment]
+        for n, nd in net.nodes.items():
+            v = _VList(nd.virtQubits)
+            v._ex, v._node = self, n
+            nd.virtQubits = v
         self.lock_name = {id(nd._lock): "node:" + n for n, nd in net.nodes.items()}
         self.owner = {}                                # lock name -> op ctx of the holder
         self.waiters = collections.defaultdict(list)
@@ -506,6 +524,15 @@ class Exec:
 
     def _ctx(self):
         return self.exp.cur if self.exp is not None else None
+
+    def on_mut(self, node):
+        ctx = self._ctx()
+        if ctx is None:
+            return
+        own = self.owner.get("node:" + node)
+        if own != ctx:
+            import sys
+            self.unguarded.append([node, sys._getframe(2).f_code.co_name, ctx, own])
 
     def on_acquire(self, lock):
         name = self._lname(lock)
@@ -648,7 +675,7 @@ class Exec:
     def pre_state(self):
         """static description of the placement: label -> {holder, sim, reg}; reg -> holder nodes"""
         net = self.net
-        info, regs = {}, collections.defaultdict(set)
+        info, regs = {}, collections.defaultdict(list)
         for lab in sorted(self.objs):
             w = self.where(lab)
             if w is None:
@@ -656,8 +683,9 @@ class Exec:
             v = w[1]
             sq = net.resolve(v.simQubit)
             reg = "%s/%s" % (v.simNode.name, getattr(getattr(sq, "register", None), "num", "?"))
-            info[lab] = {"holder": w[0], "sim": v.simNode.name, "reg": reg, "num": v.num}
-            regs[reg].add(w[0])
+            idx = next(i for i, x in enumerate(net.nodes[w[0]].virtQubits) if x is v)
+            info[lab] = {"holder": w[0], "sim": v.simNode.name, "reg": reg, "num": v.num, "index": idx}
+            regs[reg].append(w[0])
         return {"labels": info, "regs": {r: sorted(h) for r, h in regs.items()}}
 
     def run_serial(self, order):
@@ -876,11 +904,11 @@ def run_schedule(case, spec):
         "timer_steps": [s for s in exp.timer_steps if s < ex.n_conc_actions],
         "fired": [[s, d.split(":")[-1], o] for s, d, o in exp.fired],
         "timeouts": [list(t) for t in exp.timeouts],
-        "foreign": ex.foreign, "coin_trace": ex.coin_trace, "backoff_log": list(ex.net.backoff_log),
+        "foreign": ex.foreign, "unguarded": ex.unguarded, "coin_trace": ex.coin_trace, "backoff_log": list(ex.net.backoff_log),
         "virtual_time": max(ex.completion_time.values()) if ex.completion_time else None,
         "obs": obs, "prefix_actions": t_pre, "early": list(getattr(pol, "early", [])),
         "done_at": list(getattr(pol, "done_at", [])),
-        "lock_owner": {k: v for k, v in ex.owner.items()},
+        "lock_owner": {k: v for k, v in ex.owner.items()}, "done": sorted(ex.done),
     }
     return rec
 
@@ -1146,6 +1174,13 @@ def classify(prop, ds, rec, symptom):
     if rec["timeouts"] and prop == "C04":
         return "lock-nodes-timeout:cancelled-request-leak"
     rel, who = relation(ds, unfinished)
+    if prop == "C04" and rec.get("hang") and rel == "same-handle" and rec["hang"]["timers"] \
+            and all("simulatedQubit.lock" in t for t in rec["hang"]["timers"]) \
+            and not any(f["qubits"] for f in rec["hang"]["locks"].values()):
+        # the operation polls the lock of a simulated-qubit object that no node lists any more (a merge moved the
+        # register away and leaves the old objects locked); it reached that object through a handle that a
+        # concurrent send / measurement of the SAME handle had already given away
+        return "same-handle:stale-handle-waits-on-dead-qubit-lock"
     if rel == "same-handle":
         return "same-handle:%s%s" % ("||".join(sorted(ds[i]["kind"] for i in who)), "" if prop == "C03" else ":" + symptom)
     if prop == "C03" and rel == "third-party":
@@ -1162,6 +1197,16 @@ def classify_set(prop, ds, rec, symptom):
         return key
     cands = []
     pairs = sorted(itertools.combinations(range(len(ds)), 2), key=lambda ij: _RANK[pair_relation(ds[ij[0]], ds[ij[1]])])
+    if prop == "C04" and rec.get("hang"):
+        # victims hang because a lock is never released: if its last taker (lock monitor) has COMPLETED, that op
+        # leaked it -- name the failure after the leaking op's pair, as the pair exploration does
+        leakers = {o for o in rec.get("lock_owner", {}).values() if o in rec.get("done", [])}
+        r2 = dict(rec, hang=None)
+        for i, j in pairs:
+            if i in leakers or j in leakers:
+                k = classify(prop, [ds[i], ds[j]], r2, "lock-held-at-idle")
+                if k not in cands:
+                    cands.append(k)
     for i, j in pairs:
         if rec.get("hang") and i not in rec["hang"]["unfired"] and j not in rec["hang"]["unfired"]:
             continue
@@ -1171,6 +1216,14 @@ def classify_set(prop, ds, rec, symptom):
         k = classify(prop, [ds[i], ds[j]], r2, symptom)
         if k not in cands:
             cands.append(k)
+    if prop == "C03":
+        # a destructive measurement of a remotely simulated qubit edits its node's handle list holding only the
+        # SIMULATOR's lock: with a third operation observing the order this is not serialisable
+        for node, site, op, own in rec.get("unguarded", []):
+            if site == "remote_measure" and any(node in d["touched"] or d["node"] == node and d["kind"] == "new"
+                                                for i, d in enumerate(ds) if i != op):
+                cands.append("unguarded-list-mutation:remote_measure")
+                break
     return "MULTI\t" + "\t".join([key] + cands)
 
 
@@ -1266,7 +1319,7 @@ def pair_signature(ps, x, y):
             for l in d["labels"]:
                 info = ps["labels"].get(l)
                 if info:
-                    item.append([Lb(l), N(info["holder"]), N(info["sim"]), Rg(info["reg"]),
+                    item.append([Lb(l), N(info["holder"]), N(info["sim"]), Rg(info["reg"]), info.get("index", 0),
                                  sorted(N(h) for h in ps["regs"][info["reg"]])])
             if d["target"]:
                 item.append(N(d["target"]))
@@ -1388,6 +1441,7 @@ def judge_into(out, prop, case, ds, spec, rec, refs, label):
                                "locks_at_idle": {n: f for n, f in rec["obs"]["locks"].items()
                                                  if f["node"] or f["qubits"] or f["waiting"]},
                                "lock_nodes_timeouts": rec["timeouts"], "foreign_releases": rec["foreign"],
+                               "list_mutations_without_node_lock": rec["unguarded"][:6],
                                "backoff_draws": rec["backoff_log"], "coins": rec["coin_trace"]}}
         size = (len(case["conc"]), len(case["prefix"]), spec_size(spec), len(rec["actions"]))
         out.violation(key, size, "[%s] %s" % (kinds, what), replay)
@@ -1697,6 +1751,9 @@ def witnesses(prop):
         W["same-handle:measD||send"].append(({"name": "local", "prefix": local[:1], "conc": [[A, ["meas", "a0", 0]], ["Alice#2", ["send", "a0", B]]]},
                                              {"kind": "phases", "phases": [[1, 1], [0, 1]], "tail": [1, 0]}))
         W["lock-nodes-timeout:foreign-release"].append((xmerge, {"kind": "fifo"}))
+        W["unguarded-list-mutation:remote_measure"].append((
+            {"name": "both-remote", "prefix": P["both-remote"][0][:5], "coin": {"default": 0, "by": {"p0": [1], "p1": [0]}},
+             "conc": [[A, ["send", "p0", C]], ["Alice#2", ["meas", "p0", 1]], [C, ["meas", "p1", 0]]]}, {"kind": "fifo"}))
     for k in W:
         for case, _ in W[k]:
             case.setdefault("nodes", NODES)
@@ -1732,7 +1789,10 @@ def shrink(prop, key, replay, budget=160):
             o, rec = run_one(prop, c, s)
         except Exception:
             return None
-        return o.viol[key][2] if key in o.viol else None
+        for k, v in o.viol.items():
+            if resolve_key(k, {key})[0] == key:
+                return v[2]
+        return None
     best = fails(case, spec)
     if best is None:
         return replay
@@ -1771,6 +1831,20 @@ def shrink(prop, key, replay, budget=160):
 # the check body shared by props/c03.py and props/c04.py
 # ---------------------------------------------------------------------------
 
+def resolve_key(k, established):
+    """final key of a violation reported by a worker: plain keys stay; for a 3-4 op set the first candidate that is
+    an established key, else the root-cause candidate, else the key of the pair in the strongest relation"""
+    if not k.startswith("MULTI\t"):
+        return k, None
+    parts = k.split("\t")[1:]
+    k2 = next((c for c in parts[1:] if c in established), None)
+    if k2 is not None:
+        return k2, "attributed to an established pair-level key"
+    if "unguarded-list-mutation:remote_measure" in parts:
+        return "unguarded-list-mutation:remote_measure", "root cause seen by the list monitor"
+    return (parts[1] if len(parts) > 1 else parts[0]), "key no pair exploration established"
+
+
 def check(ctx, prop):
     res = core.Result()
     core.scratch_repo()
@@ -1792,6 +1866,7 @@ def check(ctx, prop):
         hit = 0
         for case, spec in W[key]:
             o, rec = run_one(prop, case, spec)
+            o.viol = {resolve_key(k, set(known) | set(W))[0]: v for k, v in o.viol.items()}
             nwit += 1
             res.count("directed witness|%s" % key)
             res.case({"witness": key, "actions": rec["actions"]})
@@ -1849,13 +1924,8 @@ def check(ctx, prop):
         merge(k, v)
     established = set(merged) | set(known)
     for k, v in multi:
-        parts = k.split("\t")[1:]
-        k2 = next((c for c in parts[1:] if c in established), None)
-        if k2 is not None:
-            res.count("~3-4 op failure attributed to an established pair-level key", v[3])
-        else:                      # the pair in the strongest relation names the failure
-            k2 = parts[1] if len(parts) > 1 else parts[0]
-            res.count("~3-4 op failure with a key no pair exploration established", v[3])
+        k2, how = resolve_key(k, established)
+        res.count("~3-4 op failure: " + how, v[3])
         merge(k2, v)
     if any(n.startswith("HARNESS-ERROR") for n in res.notes):
         raise core.MachineryError("schedule exploration: " + [n for n in res.notes if n.startswith("HARNESS-ERROR")][0][:500])
@@ -1905,6 +1975,8 @@ def replay_check(ctx, prop, res):
     res.case({"replay": case["conc"]})
     res.traces += 1
     res.evaluations += 1
+    known = {e["key"] for e in core.known_findings(prop) if e.get("status") == "open"}
+    o.viol = {resolve_key(k, known | set(witnesses(prop)))[0]: v for k, v in o.viol.items()}
     for k, v in o.viol.items():
         v[2]["spec"] = inp.get("spec", spec)
         res.violation(k, v[1], v[2])
